@@ -55,7 +55,7 @@ func (e Event) Coq() string {
 	case "EvPassStart":
 		return "EvPassStart"
 	case "EvPassEnd":
-		return "EvPassEnd " + e.Class
+		return "EvPassEnd " + gclass(e.Class)
 	default: // EvNec EvUnnec EvInval EvUpd EvErrH
 		return fmt.Sprintf("%s %d%%nat", e.K, e.N)
 	}
@@ -156,7 +156,7 @@ func (s Sample) Coq() string {
 	for _, id := range s.Reg {
 		edges = append(edges, fmt.Sprintf("(%d%%nat, %s)", id, hx.NatList(s.Edges[id])))
 	}
-	return fmt.Sprintf("EObs %s %s [%s] %s %s %s %s %s [%s]", hx.Bool(s.Crashed), s.Class, strings.Join(evs, "; "),
+	return fmt.Sprintf("EObs %s %s [%s] %s %s %s %s %s [%s]", hx.Bool(s.Crashed), gclass(s.Class), strings.Join(evs, "; "),
 		hx.Z(int64(s.NumNodes)), hx.NatList(s.Heap), hx.NatList(s.Reg), pairs(s.ObsVals), pairs(s.Vals), strings.Join(edges, "; "))
 }
 
@@ -228,6 +228,19 @@ func (e *Exec) emit(ev Event) {
 	}
 }
 
+// gclass prints a result class for the model, which has no constructor for "cancelled, but the
+// cause was lost": it is shown as a class the model never produces for a cancelled pass, so that
+// the replay reports the disagreement instead of failing to parse.
+func gclass(c string) string {
+	if c == "XCancelNoCause" {
+		return "XUser"
+	}
+	return c
+}
+
+// errCancelCause is the cause the harness cancels a pass's context with.
+var errCancelCause = errors.New("harness: context cancelled with this cause")
+
 // Classify maps an error to the model's errclass; crashed = an internal panic was reported.
 func Classify(err error) (class string, crashed bool, msg string) {
 	if err == nil {
@@ -244,8 +257,10 @@ func Classify(err error) (class string, crashed bool, msg string) {
 		return "XPanic", true, fmt.Sprintf("internal panic reported as *PanicError: %v", pe.Value)
 	case errors.Is(err, errUser):
 		return "XUser", false, ""
-	case errors.Is(err, context.Canceled):
+	case errors.Is(err, errCancelCause):
 		return "XCancelled", false, ""
+	case errors.Is(err, context.Canceled):
+		return "XCancelNoCause", false, ""
 	case strings.Contains(err.Error(), "cycle detected"):
 		return "XCycle", false, ""
 	case strings.Contains(err.Error(), "cannot set node height above"):
@@ -629,10 +644,16 @@ func (e *Exec) Do(op Op) (out Sample) {
 			err = e.G.ParallelStabilize(context.Background())
 			e.InPass = false
 		case "StabilizeCancelled":
-			ctx, cancel := context.WithCancel(context.Background())
-			cancel()
+			// cancelled with an explicit cause: the pass must hand back the cause, not the bare
+			// context.Canceled (C07); on a parallel graph the parallel stabilizer is the one asked
+			ctx, cancel := context.WithCancelCause(context.Background())
+			cancel(errCancelCause)
 			e.InPass = true
-			err = e.G.Stabilize(ctx)
+			if e.Par > 0 {
+				err = e.G.ParallelStabilize(ctx)
+			} else {
+				err = e.G.Stabilize(ctx)
+			}
 			e.InPass = false
 		}
 	}()
@@ -765,7 +786,7 @@ func (e Event) Code() []int {
 	case "EvPassStart":
 		return []int{11}
 	default:
-		classes := map[string]int{"XOk": 0, "XCycle": 1, "XLimit": 2, "XUser": 3, "XPanic": 4, "XCancelled": 5, "XAlready": 6, "XNil": 7}
+		classes := map[string]int{"XOk": 0, "XCycle": 1, "XLimit": 2, "XUser": 3, "XPanic": 4, "XCancelled": 5, "XAlready": 6, "XNil": 7, "XCancelNoCause": 8}
 		return []int{12, classes[e.Class]}
 	}
 }
